@@ -258,6 +258,19 @@ func c20Gen(t *rapid.T) C20Case {
 	mode := rapid.SampledFrom([]string{"key", "key", "select", "json"}).Draw(t, "mode")
 	switch mode {
 	case "key":
+		if rapid.IntRange(0, 3).Draw(t, "buffer-boundary-key") == 0 {
+			// Keys of the lengths at which a fixed-size buffer ends (a power of two, one less, one
+			// more), made of one-byte characters except perhaps one, starting with a digit or not.
+			n := rapid.SampledFrom([]int{8, 16, 32, 64, 128, 256, 512, 1024, 4096}).Draw(t, "bb-size") + rapid.IntRange(-1, 1).Draw(t, "bb-delta")
+			first := rapid.SampledFrom([]string{"9", "0", "a", "_", "-", ".", "é"}).Draw(t, "bb-first")
+			fill := rapid.SampledFrom([]string{"f", "-", "0", "_", "."}).Draw(t, "bb-fill")
+			key := first + strings.Repeat(fill, n-len(first))
+			if rapid.IntRange(0, 3).Draw(t, "bb-one-wide") == 0 {
+				at := rapid.IntRange(1, len(key)-2).Draw(t, "bb-wide-at")
+				key = key[:at] + rapid.SampledFrom([]string{"é", "世", "\xff"}).Draw(t, "bb-wide") + key[at+1:]
+			}
+			return C20Case{Mode: mode, Key: gen.BS(key)}
+		}
 		return C20Case{Mode: mode, Key: gen.BS(c20GenKey(t, 64, false))}
 	case "json":
 		c := C20Case{Mode: mode, Key: gen.BS(c20GenKey(t, 12, true)), Value: c20GenValue(t)}
